@@ -289,3 +289,156 @@ Proof.
 Qed.
 Lemma er_block sz gs : Erases (idec_block sz gs) (dec_block sz).
 Proof. pose proof (er_tx sz gs). unfold idec_block, dec_block. er. Qed.
+
+(* ---- 3. the accounting invariant ------------------------------------------------------------------------------------------- *)
+Definition CAP : N := MAX_VEC_MEM_ALLOC_SIZE.
+Definition consumesN {A} (d : dec A) (k : N) : Prop := forall s a r, d s = (Ok a, r) -> lenN r + k <= lenN s.
+Lemma consN {A} (d : dec A) k : consumes d k -> consumesN d (N.of_nat k).
+Proof. intros H s a r E. apply H in E. unfold lenN. lia. Qed.
+
+Fixpoint lsum {A} (f : A -> N) (l : list A) : N := match l with [] => 0 | a :: t => f a + lsum f t end.
+Definition zero {A} (_ : A) : N := 0.
+
+Lemma gcap_bounds i : N.of_nat i <= gcap i /\ gcap i <= 4 * N.of_nat i.
+Proof.
+  induction i as [|i [IH1 IH2]]; [cbn; lia|]. cbn [gcap]. rewrite Nat2N.inj_succ.
+  destruct (N.of_nat i <? gcap i) eqn:E; [apply N.ltb_lt in E|apply N.ltb_ge in E]; lia.
+Qed.
+
+(* credit stored in a growing vector after i pushes: 4 * esize was paid per element, the buffer holds gcap i <= 4 * i slots *)
+Definition slk (i : nat) : N := 4 * N.of_nat i - gcap i.
+
+Section Acc.
+  Variable rho : N.
+
+  Definition PK {A} (i : idec A) (C K : N) (cred : A -> N) : Prop :=
+    forall s L P,
+      snd (snd (i s (L, P))) <= N.max P (L + C + K + rho * lenN s) /\
+      (forall a, fst (fst (i s (L, P))) = Ok a ->
+                 fst (snd (i s (L, P))) + cred a + rho * lenN (snd (fst (i s (L, P)))) <= L + C + rho * lenN s).
+
+  Lemma pk_weaken {A} (i : idec A) C0 K0 c0 C K c :
+    PK i C0 K0 c0 -> C0 <= C -> K0 <= K -> (forall a, c a + C0 <= c0 a + C) -> PK i C K c.
+  Proof.
+    intros H HC HK Hc s L P. destruct (H s L P) as [H1 H2]. split; [lia|].
+    intros a E. specialize (H2 a E). specialize (Hc a). lia.
+  Qed.
+  Lemma pk_K {A} (i : idec A) C K0 K c : PK i C K0 c -> K0 <= K -> PK i C K c.
+  Proof. intros H HK. apply (pk_weaken i C K0 c); auto; intros; lia. Qed.
+  Lemma pk_cred {A} (i : idec A) C K c0 c : PK i C K c0 -> (forall a, c a <= c0 a) -> PK i C K c.
+  Proof. intros H Hc. apply (pk_weaken i C K c0); auto; try lia. intros a. specialize (Hc a). lia. Qed.
+
+  Lemma pk_ret {A} (x : A) C K cred : cred x <= C -> PK (iret x) C K cred.
+  Proof. intros H s L P. unfold iret. cbn [fst snd]. split; [lia|]. intros a E. inversion E; subst. lia. Qed.
+  Lemma pk_fail {A} e C K (cred : A -> N) : PK (ifail e) C K cred.
+  Proof. intros s L P. unfold ifail. cbn [fst snd]. split; [lia|]. intros a E. discriminate E. Qed.
+  Lemma pk_lift {A} (d : dec A) k C : consumesN d k -> PK (ilift d) C 0 (fun _ => C + rho * k).
+  Proof.
+    intros H s L P. unfold ilift. cbn [fst snd]. split; [lia|]. intros a E.
+    destruct (d s) as [rs r] eqn:Ed. cbn [fst snd] in *. subst rs. apply H in Ed.
+    assert (rho * (lenN r + k) <= rho * lenN s) by (apply N.mul_le_mono_l; exact Ed). lia.
+  Qed.
+
+  Lemma pk_bind {A B} (d : idec A) (k : A -> idec B) C K c1 c2 :
+    PK d C K c1 -> (forall a, PK (k a) (c1 a) K c2) -> PK (ibind d k) C K c2.
+  Proof.
+    intros H1 H2 s L P. unfold ibind. destruct (H1 s L P) as [A1 A2].
+    destruct (d s (L, P)) as [[[a|e|] r] [L1 P1]]; cbn [fst snd] in *.
+    - specialize (A2 a eq_refl). destruct (H2 a r L1 P1) as [B1 B2].
+      destruct (k a r (L1, P1)) as [[rs r2] [L2 P2]]; cbn [fst snd] in *. split; [lia|].
+      intros b E. specialize (B2 b E). lia.
+    - split; [lia|]. intros b E. discriminate E.
+    - split; [lia|]. intros b E. discriminate E.
+  Qed.
+
+  (* n iterations: every element pays x and hands on ce a *)
+  Lemma pk_repn {A} (d : idec A) K x ce :
+    (forall C', PK d C' K (fun a => C' + x + ce a)) ->
+    forall n C, PK (irepn n d) C K (fun l => C + x * N.of_nat n + lsum ce l).
+  Proof.
+    intros H. induction n as [|n IH]; intros C; cbn [irepn].
+    - apply pk_ret. cbn [lsum]. lia.
+    - eapply pk_bind; [apply H|]. intros a. eapply pk_bind; [apply IH|]. intros t. apply pk_ret.
+      cbn [lsum]. rewrite Nat2N.inj_succ. lia.
+  Qed.
+
+  (* the reservation size * n is made BEFORE anything is read: it is covered by K (<= CAP), and paid by the elements at the end *)
+  Lemma pk_reserve {A} (d : idec A) K size y ce n C :
+    size * n <= CAP ->
+    (forall C', PK d C' K (fun a => C' + (size + y) + ce a)) ->
+    PK (_ <~ ialloc (size * n) ;; irepn (N.to_nat n) d) C (CAP + K) (fun l => C + y * n + lsum ce l).
+  Proof.
+    intros Hq H s L P. unfold ibind, ialloc. cbn [fst snd].
+    destruct (pk_repn d K (size + y) ce H (N.to_nat n) C s (L + size * n) (N.max P (L + size * n))) as [H1 H2].
+    destruct (irepn (N.to_nat n) d s (L + size * n, N.max P (L + size * n))) as [[rs r] [L' P']]; cbn [fst snd] in *.
+    rewrite N2Nat.id in H2. split; [lia|]. intros l E. specialize (H2 l E). lia.
+  Qed.
+
+  Lemma pk_sized {A} (d : idec A) K size y ce n C :
+    (forall C', PK d C' K (fun a => C' + (size + y) + ce a)) ->
+    PK (isized size n d) C (CAP + K) (fun l => C + y * n + lsum ce l).
+  Proof.
+    intros H. unfold isized. destruct (over_cap size n) eqn:E; [apply pk_fail|].
+    apply cap_bounds_len in E. now apply pk_reserve.
+  Qed.
+
+  Lemma cN_varint : consumesN dec_varint 1.
+  Proof. exact (consN _ _ consumes_varint). Qed.
+
+  Lemma pk_vec {A} (d : idec A) K size ce C :
+    (forall C', PK d C' K (fun a => C' + size + ce a)) ->
+    PK (ivec size d) C (CAP + K) (fun l => C + rho + lsum ce l).
+  Proof.
+    intros H. unfold ivec. eapply pk_bind; [eapply pk_K; [apply (pk_lift dec_len 1 C cN_varint)|lia]|].
+    intros n. cbv beta. destruct (over_cap size n) eqn:E; [apply pk_fail|]. apply cap_bounds_len in E.
+    eapply pk_cred; [apply (pk_reserve d K size 0 ce n (C + rho * 1) E)|].
+    - intros C'. eapply pk_cred; [apply H|]. intros a. cbv beta. lia.
+    - intros l. cbv beta. lia.
+  Qed.
+
+  (* a push into a growing vector: 4 * esize of credit per element pays for the doubling, the transient old + new buffer
+     is covered by what the earlier elements paid plus 4 * esize *)
+  Lemma pk_push esize i C :
+    PK (ipush esize i) (C + 4 * esize + esize * slk i) (4 * esize) (fun _ => C + esize * slk (S i)).
+  Proof.
+    unfold slk.
+    destruct (gcap_bounds i) as [G1 G2]. destruct (gcap_bounds (S i)) as [G3 G4].
+    unfold ipush. cbn [gcap] in *. rewrite Nat2N.inj_succ in *.
+    destruct (N.of_nat i <? gcap i) eqn:E; [apply N.ltb_lt in E|apply N.ltb_ge in E].
+    - apply pk_ret.
+      replace (4 * N.succ (N.of_nat i) - gcap i) with (4 + (4 * N.of_nat i - gcap i)) by lia. lia.
+    - intros s L P. unfold ibind, ialloc, ifree. cbn [fst snd].
+      assert (Ei : gcap i = N.of_nat i) by lia. rewrite Ei in *.
+      set (g := N.max 4 (2 * N.of_nat i)) in *. set (n := N.of_nat i) in *.
+      assert (Hg : g <= 4 + 2 * n) by (subst g; lia). assert (Hg' : n <= g) by (subst g; lia).
+      replace (4 * n - n) with (3 * n) by lia.
+      assert (E1 : esize * g <= esize * (4 + 2 * n)) by (apply N.mul_le_mono_l; exact Hg).
+      assert (E2 : esize * n <= esize * g) by (apply N.mul_le_mono_l; exact Hg').
+      assert (E3 : esize * (4 * N.succ n - g) + esize * g = esize * (4 * N.succ n))
+        by (rewrite <- N.mul_add_distr_l; f_equal; lia).
+      assert (E4 : esize * (4 * N.succ n) = 4 * esize + 4 * (esize * n)) by lia.
+      assert (E5 : esize * (4 + 2 * n) = 4 * esize + 2 * (esize * n)) by lia.
+      assert (E6 : esize * (3 * n) = 3 * (esize * n)) by lia.
+      split; [lia|]. intros a _. lia.
+  Qed.
+
+  Lemma pk_grown {A} (d : idec A) K esize ce :
+    (forall C', PK d C' K (fun a => C' + 4 * esize + ce a)) ->
+    forall n i C, PK (igrown esize i n d) (C + esize * slk i) (K + 4 * esize) (fun l => C + lsum ce l).
+  Proof.
+    intros H. induction n as [|n IH]; intros i C; cbn [igrown].
+    - apply pk_ret. cbn [lsum]. generalize (esize * slk i). intros. lia.
+    - eapply pk_bind; [eapply pk_K; [apply H|lia]|]. intros a. cbv beta.
+      eapply pk_bind.
+      + apply (pk_weaken _ _ _ _ _ _ (fun _ => C + ce a + esize * slk (S i)) (pk_push esize i (C + ce a))); [lia|lia|].
+        intros u. lia.
+      + intros u. cbv beta. eapply pk_bind; [apply (IH (S i) (C + ce a))|]. intros t. apply pk_ret. cbn [lsum]. lia.
+  Qed.
+
+  Lemma pk_grow {A} (d : idec A) K esize ce n C :
+    (forall C', PK d C' K (fun a => C' + 4 * esize + ce a)) ->
+    PK (igrow esize n d) C (K + 4 * esize) (fun l => C + lsum ce l).
+  Proof.
+    intros H. unfold igrow. eapply pk_weaken; [apply (pk_grown d K esize ce H (N.to_nat n) 0%nat C)| | |]; unfold slk; cbn [gcap N.of_nat]; try lia.
+  Qed.
+End Acc.
